@@ -5,7 +5,7 @@ VARIABLES vs, attrs
 
 DiscChoices == {[op |-> "none", a |-> 0, b |-> 0], Lit(0), Lit(5), Lit(200), [op |-> "neg", a |-> 2, b |-> 0],
                               [op |-> "shl", a |-> 1, b |-> 2], [op |-> "or", a |-> 4, b |-> 1],
-                              [op |-> "add", a |-> 2, b |-> 1]}
+                              [op |-> "add", a |-> 2, b |-> 1], [op |-> "bnot", a |-> 0, b |-> 0], [op |-> "bnot", a |-> 6, b |-> 0]}
 ReprChoices == {<<>>, <<<<"u8">>>>, <<<<"i8">>>>, <<<<"i16">>>>, <<<<"u32">>>>, <<<<"C", "u8">>>>, <<<<"u8", "C">>>>,
                 <<<<"align(8)", "i16">>>>, <<<<"i16", "align(8)">>>>, <<<<"u8">>, <<"C">>>>, <<<<"C">>, <<"u8">>>>,
                 <<<<"u16">>>>, <<<<"i32">>>>, <<<<"u64">>>>, <<<<"i64">>>>, <<<<"u128">>>>, <<<<"i128">>>>,
@@ -30,6 +30,7 @@ Valid == LET ds == Discs(vs)
              hasFields == \E j \in 1..Len(vs) : vs[j].kind \notin FieldlessKinds
              hasExplicit == \E j \in 1..Len(vs) : vs[j].disc.op # "none"
          IN /\ Len(vs) >= 1
+            /\ ((\E j \in 1..Len(vs) : vs[j].disc.op = "bnot") => Signed(t))
             /\ \A j \in 1..Len(vs) : InRange(t, ds[j])
             /\ \A j, k \in 1..Len(vs) : j # k => ds[j] # ds[k]
             /\ ((\E j \in 1..Len(vs) : vs[j].kind # "unit") /\ hasExplicit => AllHints(attrs) \cap IntTypes # {})
